@@ -114,6 +114,19 @@ def gen_case(rng, k):
         changes = [STMT_CHANGES[0][1]] + [rng.choice(IMPORT_CHANGES[:5])[1] for _ in range(rng.randint(1, 2))]
         metas = [{"kind": "stmt", "name": "drop-commented"}] + [{"kind": "import", "name": "after-dropped-comment"} for _ in changes[1:]]
         flavour = "mixed"
+    if k % 7 == 6:
+        # comment-heavy files (the C17 generator) and sequences in which an earlier change loses comments: a growing
+        # multi-line rewrite, then a declaration-level change next to commented declarations, then anything
+        import c17
+        decl_level = ["var-to-func", "var-to-const", "type-kind", "method-to-func", "const-block-to-var", "func-sig", "func-rename"]
+        ks = [rng.choice(["expr-grow", "expr-grow", "stmt-delete", "plus-comments", "if-err"]), rng.choice(decl_level),
+              rng.choice(["stmt-replace2", "expr", "stmt-insert", "import-replace", "import-add", "field", "lock"])]
+        if rng.random() < 0.3:
+            ks = ks[:2] + [rng.choice(decl_level)] + ks[2:]
+        changes = [c17.PATCHES[x] for x in ks]
+        metas = [{"kind": "comments", "name": x} for x in ks]
+        src = c17.gen_file(rng, "combo:" + "+".join(ks))
+        return changes, metas, src, MODES[(k // 7) % len(MODES)], None
     if k % 6 == 5:
         fail_at = rng.randrange(n + 1)
         nm, c, decl = rng.choice(FAILING)
